@@ -3,9 +3,11 @@ package cluster
 import (
 	"bytes"
 	"crypto/ed25519"
+	"encoding/json"
 	"fmt"
 	"sort"
 	"strings"
+	"time"
 
 	"github.com/lidofinance/dc4bc/client/types"
 	spf "github.com/lidofinance/dc4bc/fsm/state_machines/signature_proposal_fsm"
@@ -155,13 +157,31 @@ func runC09(w *World, tier string) (bool, interface{}) {
 	injected := 0
 	judged := 0
 	var kinds []string
-	forceNext := false               // the next genuine message gets a forged companion for sure
+	forceNext := false                 // the next genuine message gets a forged companion for sure
 	wrappedRounds := map[string]bool{} // round ids only reinit envelopes of the adversary name
 	w.Board.PreAppend = append(w.Board.PreAppend, func(m storage.Message, by int) {
 		if by < 0 || injected >= budget {
 			return
 		}
 		// the opening proposal and reinit messages are exempt (confirmed out of band)
+		if m.Event == string(spf.EventInitProposal) && w.Tape.Bool(1, 2, "frontRun") {
+			// ... but messages that name the round BEFORE its proposal is on the
+			// board are not: no key is registered for anybody yet, so nothing can
+			// verify, and nothing may be stored for the round
+			other := w.Nodes[(by+1)%len(w.Nodes)].Name
+			entry := []map[string]interface{}{{"File": "x", "BatchID": "front-run-batch", "MessageID": "front-run-msg", "SrcPayload": []byte("p"), "Signature": bytes.Repeat([]byte{7}, 96), "Username": other, "DKGRoundID": m.DkgRoundID}}
+			x := storage.Message{DkgRoundID: m.DkgRoundID, Event: string(types.SignatureReconstructed), SenderAddr: other}
+			x.Data, _ = json.Marshal(entry)
+			x.Signature = ed25519.Sign(freshKey(w, 77), x.Bytes())
+			w.Board.InjectMsg(x, &Inject{Kind: "front-running-the-proposal", Expect: "reject"})
+			y := storage.Message{DkgRoundID: m.DkgRoundID, Event: string(spf.EventConfirmSignatureProposal), SenderAddr: other}
+			y.Data, _ = json.Marshal(map[string]interface{}{"ParticipantId": 0, "CreatedAt": time.Now()})
+			y.Signature = ed25519.Sign(freshKey(w, 78), y.Bytes())
+			w.Board.InjectMsg(y, &Inject{Kind: "front-running-the-proposal", Expect: "reject"})
+			kinds = append(kinds, "front-running-the-proposal@"+x.Event, "front-running-the-proposal@"+y.Event)
+			w.Stats.Fault("mutate-front-running-the-proposal")
+			return
+		}
 		if m.Event == string(spf.EventInitProposal) || m.Event == string(types.ReinitDKG) {
 			return
 		}
